@@ -221,7 +221,8 @@ CHECKS = {
        "end to end from fresh objects C01_fresh_v311_all_identifiers_released, Conn/PairConcIds.v; for v5.0 the complete quiescent state "
        "C01_pair_quiescence_v5, Conn/PairConcIds5.v; both directions C01_pair_two_way_all_identifiers_released / C01_pair_two_way_v5_quiescence; "
        "and the whole quiescence clause end to end from fresh v5.0 objects: C01_fresh_v5_complete_quiescence and C01_fresh_v311_complete_quiescence, Conn/PairQuiescence.v; across transport losses: store empty and no "
-       "identifier in use, C01_pair_lossy_all_identifiers_released / C01_fresh_endpoints_complete_quiescence_across_loss, Conn/PairLossIds.v); "
+       "identifier in use, C01_pair_lossy_all_identifiers_released / C01_pair_server_publishes_all_identifiers_released / "
+       "C01_fresh_endpoints_complete_quiescence_across_loss, Conn/PairLossIds.v, PairLossSIds.v); "
        "(1m) MANUAL RESPONSES: with auto_pub_response off on both endpoints the library requests nothing itself, "
        "each acknowledgement the application sends goes through send() to the same code, and QoS 1 / QoS 2 exchanges complete from every "
        "admissible pair of states (C01_pair_qos1_completes_manual, C01_pair_qos2_completes_manual, Conn/PairManual.v), and for v5.0 with the "
